@@ -10,7 +10,7 @@ import (
 )
 
 func init() {
-	RegisterUF("totp_ok", SBool, SStr, SStr, SInt)
+	RegisterUF("totp_ok", SBool, SStr, SStr)
 }
 
 func setField(st *Struct, t types.Type, name string, v Value) {
@@ -21,11 +21,10 @@ type jsonBlob struct{ m *Map }
 
 func registerThirdParty(p *Program) {
 	I := p.Intrinsic
-	// totp.Validate(code, secret): deterministic in (code, secret, 30 s time step); nothing else assumed.
+	// totp.Validate(code, secret): an arbitrary but fixed predicate of (code, secret).
 	I["github.com/pquerna/otp/totp.Validate"] = func(ex *Exec, fr *frame, fn *ssa.Function, a []Value) Value {
-		now := ex.now()
-		step := DivE(now, IntC(30000000000))
-		return App("totp_ok", SBool, tstr(a[0]), tstr(a[1]), step)
+		// validity is not varied with the instant inside one harness run (stated bound)
+		return App("totp_ok", SBool, tstr(a[0]), tstr(a[1]))
 	}
 	I["github.com/pquerna/otp/totp.Generate"] = func(ex *Exec, fr *frame, fn *ssa.Function, a []Value) Value {
 		if ex.Decide(ex.faultBool("totp.Generate")) {
